@@ -38,9 +38,17 @@ type op struct {
 	updTTL int64
 	// Tick
 	dt int64
+	// kind rds only: fault > 0 makes the fault-th redis command this call issues fail with a
+	// connection error before it has any effect (the call is then not acknowledged)
+	fault int
 }
 
 func (o *op) String() string {
+	if o.fault > 0 {
+		c := *o
+		c.fault = 0
+		return fmt.Sprintf("%s [redis command #%d of this call fails]", c.String(), o.fault)
+	}
 	switch o.kind {
 	case oSet:
 		var sb strings.Builder
